@@ -296,7 +296,7 @@ def ttm(t, U, dim=None, transpose=False):
         dim = range(len(U))
     if not hasattr(dim, "__len__"):
         dim = [dim]
-    dim = list(dim)
+    dim = [int(d) for d in dim]  # Plain ints: the items of a torch tensor are views into the caller's array
     for i in range(len(dim)):
         if dim[i] < 0:
             dim[i] += t.dim()
